@@ -66,6 +66,7 @@ METHOD_MESSAGES = {
     'picmg.Picmg.set_signaling_class': ['SetSignalingClass'], 'picmg.Picmg.get_signaling_class': ['GetSignalingClass'],
     'hpm.Hpm.get_upgrade_status': ['GetUpgradeStatus'], 'hpm.Hpm.get_target_upgrade_capabilities': ['GetTargetUpgradeCapabilities'],
     'hpm.Hpm.query_selftest_results': ['QuerySelftestResults'], 'hpm.Hpm.query_rollback_status': ['QueryRollbackStatus'],
+    'hpm.Hpm.get_component_property': ['GetComponentProperties'],
 }
 
 
@@ -259,6 +260,8 @@ def snapshot():
     t['bootFlagsSelector'] = int(chassis.BOOT_PARAMETER_BOOT_FLAGS)
     t['lanIp'], t['lanIpSrc'] = int(lanmod.LAN_PARAMETER_IP_ADDRESS), int(lanmod.LAN_PARAMETER_IP_ADDRESS_SOURCE)
     t['lanMac'], t['lanVlan'] = int(lanmod.LAN_PARAMETER_MAC_ADDRESS), int(lanmod.LAN_PARAMETER_802_1Q_VLAN_ID)
+    import pyipmi.hpm as hpmmod
+    t['hpmDescriptionSelector'] = int(hpmmod.PROPERTY_DESCRIPTION_STRING)
     t['layouts'] = message_layouts()
     return t
 
@@ -301,7 +304,8 @@ def render(t):
     o.append('def fruActivationControl : List Nat := ' + _nats(t['fruActivationControl']))
     o.append('/-- ctrl passed by set_fru_activation_lock, clear_fru_activation_lock, set_fru_deactivation_lock, clear_fru_deactivation_lock -/')
     o.append('def policyCtrl : List Nat := ' + _nats(t['policyCtrl']))
-    for k in ('ledBlinkLo', 'ledBlinkHi', 'ledOff', 'ledOn', 'ledLampTest', 'bootFlagsSelector', 'lanIp', 'lanIpSrc', 'lanMac', 'lanVlan'):
+    for k in ('ledBlinkLo', 'ledBlinkHi', 'ledOff', 'ledOn', 'ledLampTest', 'bootFlagsSelector', 'lanIp', 'lanIpSrc', 'lanMac', 'lanVlan',
+              'hpmDescriptionSelector'):
         o.append('def %s : Nat := %d' % (k, t[k]))
     o.append('/-- LedState.FUNCTION_{OFF, BLINKING, ON, LAMP_TEST} -/')
     o.append('def ledStateFn : List Nat := ' + _nats(t['ledStateFn']))
